@@ -183,7 +183,7 @@ Proof. exact rrulestr_tzid_folded. Qed.
 Print Assumptions C13_spelling_tzid_folded.
 
 Theorem C13_tzid_names : forall pre name rest, nolower pre -> noTZ (pre ++ [84]) = true -> name <> [] ->
-  has_char 58 name = false -> nolower rest -> noTZ rest = true ->
+  nodelim name = true -> nolower rest -> noTZ rest = true ->
   tzid_findall (pre ++ s_TZIDeq ++ name ++ 58 :: rest) = [name].
 Proof. exact tzid_findall_one. Qed.
 Print Assumptions C13_tzid_names.
@@ -201,9 +201,9 @@ Theorem C13_spelling_tzid_general : forall ev o c d k name tag vp k0 k1 k2 k3, w
 Proof. exact rrulestr_tzid_general. Qed.
 Print Assumptions C13_spelling_tzid_general.
 
-Theorem C13_tzid_names_anycase : forall pre k0 k1 k2 k3 name rest, nolower pre -> noTZ (pre ++ [84]) = true ->
-  kwd_ok k0 k1 k2 k3 -> name <> [] -> has_char 58 name = false -> nolower rest -> noTZ rest = true ->
-  tzid_findall (pre ++ [k0; k1; k2; k3; 61] ++ name ++ 58 :: rest) = [name].
+Theorem C13_tzid_names_anycase : forall pre k0 k1 k2 k3 name d rest, nolower pre -> noTZ (pre ++ [84]) = true ->
+  kwd_ok k0 k1 k2 k3 -> name <> [] -> nodelim name = true -> d = 58 \/ d = 59 -> nolower rest -> noTZ rest = true ->
+  tzid_findall (pre ++ [k0; k1; k2; k3; 61] ++ name ++ d :: rest) = [name].
 Proof. exact tzid_findall_kw. Qed.
 Print Assumptions C13_tzid_names_anycase.
 
@@ -217,16 +217,31 @@ Theorem C13_exdate_tzid : forall o names name tag vp short ds a,
 Proof. exact do_line_exdate_tzid. Qed.
 Print Assumptions C13_exdate_tzid.
 
-(* finding F-C13-f: VALUE before TZID keeps the zone, TZID before VALUE loses it *)
-Theorem C13_tzid_followed_by_parameter_refuted :
+(* TZID FOLLOWED by VALUE=DATE-TIME (formerly finding F-C13-f, fixed by 5fe9b57: the name ends at the
+   first ':' or ';'): the zone is kept, keyword in any letter case *)
+Theorem C13_spelling_tzid_value_after : forall ev o c d k name tag k0 k1 k2 k3, wf_kw k = true ->
+  valid_dt d = true -> dus d = 0 -> dtz d = 0 ->
+  name <> [] -> forallb namec name = true -> tz_get (o_tzids o) name = tag -> tag <> 0 ->
+  kwd_ok k0 k1 k2 k3 ->
+  o_forceset o = false -> o_compatible o = false -> o_ignoretz o = false -> o_unfold o = false ->
+  parse_rfc ev o (s_DTSTART ++ 59 :: [k0; k1; k2; k3; 61] ++ name ++ s_VALUEDTparm ++ 58 :: dt_spell (c_dshort c) d
+                  ++ 10 :: (if c_prefix c then s_RRULEc else []) ++ spell_value c k)
+  = single ev (o_cache o) (Some (with_tz d tag)) k.
+Proof. exact rrulestr_tzid_value_after. Qed.
+Print Assumptions C13_spelling_tzid_value_after.
+
+(* the former witness of F-C13-f, now positive: both parameter orders (and EXDATE) keep the zone *)
+Theorem C13_tzid_followed_by_parameter :
   let o := mkopts None false false false false false [(zs "Europe/Berlin", 3)] in
   let ev := mkenv 0 (mkdt 2000 1 1 0 0 0 0 0) in
   (exists r, parse_rfc ev o (zs "DTSTART;VALUE=DATE-TIME;TZID=Europe/Berlin:19970902T090000
 RRULE:FREQ=DAILY;COUNT=2") = RRule false r /\ dtz (r_dtstart r) = 3) /\
   (exists r, parse_rfc ev o (zs "DTSTART;TZID=Europe/Berlin;VALUE=DATE-TIME:19970902T090000
-RRULE:FREQ=DAILY;COUNT=2") = RRule false r /\ dtz (r_dtstart r) = 0).
-Proof. exact tzid_followed_by_parameter_refuted. Qed.
-Print Assumptions C13_tzid_followed_by_parameter_refuted.
+RRULE:FREQ=DAILY;COUNT=2") = RRule false r /\ dtz (r_dtstart r) = 3) /\
+  (exists xd, parse_rfc ev o (zs "EXDATE;TZID=Europe/Berlin;VALUE=DATE-TIME:19970902T090000") = RSet false [] [] [] xd
+              /\ map dtz xd = [3]).
+Proof. exact tzid_followed_by_parameter. Qed.
+Print Assumptions C13_tzid_followed_by_parameter.
 
 (* TZID parameter, at the level of _parse_date_value: the zone found through tzids is applied to a
    naive value, and a value with Z is rejected with ValueError.  *)
